@@ -68,6 +68,7 @@ type Record struct {
 	References []Reference `json:"references,omitempty"`
 	Extra      []Block     `json:"extra,omitempty"` // extra top-level keywords after the references (COMMENT, PRIMARY, ...)
 	Features   []Feature   `json:"features,omitempty"`
+	Contig     []string    `json:"contig,omitempty"` // CONTIG block, written where GenBank puts it: after the feature table, before ORIGIN
 	Seq        vk.SeqSpec  `json:"seq"`
 }
 
@@ -215,6 +216,9 @@ func (r Record) Write() string {
 				b.WriteString(featIndent + l + "\n")
 			}
 		}
+	}
+	if len(r.Contig) > 0 {
+		block(&b, "CONTIG", r.Contig)
 	}
 	b.WriteString("ORIGIN\n")
 	for i := 0; i < len(seq); i += 60 {
@@ -366,6 +370,9 @@ func Draw(t *rapid.T, name string, maxSeq, maxFeatures int) Record {
 		r.References = append(r.References, ref)
 	}
 	nextra := rapid.IntRange(0, 3).Draw(t, name+"_n_extra")
+	if rapid.IntRange(0, 3).Draw(t, name+"_has_contig") == 0 {
+		r.Contig = Words(t, name+"_contig", 1, 30)
+	}
 	usedExtra := map[string]bool{}
 	for i := 0; i < nextra; i++ {
 		k := rapid.SampledFrom(ExtraKeys).Draw(t, fmt.Sprintf("%s_extra%d_key", name, i))
